@@ -248,7 +248,7 @@ def extract_enum(text, name, typemap):
 
 def parse_fields(toks, a, b, typemap, cls):
     """parse data members between class-body braces a..b.  returns list of (ctype, name, suffix, cxxtype) and static_asserts"""
-    fields = []; asserts = []
+    fields = []; asserts = []; statics = []
     i = next_sig(toks, a)
     while i is not None and i < b:
         t = toks[i]
@@ -293,6 +293,17 @@ def parse_fields(toks, a, b, typemap, cls):
         if w0 == 'static_assert':
             asserts.append(untok(toks[toks.index(decl[0]):j]))
             continue
+        if w0 in ('static', 'constexpr') and not has_paren and any(x.t == '=' for x in decl):
+            # static constant with in-class initialiser:  static const T name = value;
+            eq = next(k2 for k2, x in enumerate(decl) if x.t == '=')
+            tys = [x.t for x in decl[:eq - 1] if x.t not in ('static', 'constexpr', 'const', 'inline')]
+            val = ''.join(x.t for x in decl[eq + 1:])
+            try:
+                cty, _ = map_type(' '.join(tys), typemap)
+                statics.append((cty, decl[eq - 1].t, val))
+            except ExtractionBreak:
+                pass
+            continue
         if w0 in ('using', 'typedef', 'friend', 'template', 'virtual', 'static', 'constexpr', 'explicit', 'enum') or has_paren:
             continue
         if w0 == '~': continue
@@ -314,6 +325,7 @@ def parse_fields(toks, a, b, typemap, cls):
             suffix = ''
         ctype, is_ref = map_type(cxxtype, typemap)
         fields.append((ctype, name, suffix, cxxtype))
+    parse_fields.last_statics = statics
     return fields, asserts
 
 def extract_struct(text, name, typemap, packed, cname=None, keep_asserts=True):
@@ -322,12 +334,27 @@ def extract_struct(text, name, typemap, packed, cname=None, keep_asserts=True):
     fields, asserts = parse_fields(toks, a, b, typemap, name)
     cname = cname or name
     out = []
+    # R13: packing is read from the header (#pragma pack(push/pop) surrounding the definition), not from the unit file
+    npush = sum(1 for t in toks[:a] if t.k == 'pp' and re.match(r'#\s*pragma\s+pack\s*\(\s*push', t.t))
+    npop = sum(1 for t in toks[:a] if t.k == 'pp' and re.match(r'#\s*pragma\s+pack\s*\(\s*pop', t.t))
+    packed = npush > npop
     if packed: out.append('#pragma pack(push, 1)')
     out.append('typedef struct %s {' % cname)
     for ctype, nm, suffix, _ in fields:
         out.append('  %s %s%s;' % (ctype, nm, suffix))
     out.append('} %s;' % cname)
     if packed: out.append('#pragma pack(pop)')
+    # size assertions written in the header (inside or after the struct) are kept and checked by goto-cc
+    for i, t in enumerate(toks):
+        if t.k == 'id' and t.t == 'static_assert':
+            p = next_sig(toks, i); e = match_fwd(toks, p)
+            txt = untok(toks[p:e + 1])
+            if re.search(r'sizeof\s*\(\s*(\w+::)*%s\s*\)' % re.escape(name), txt) and txt.count('sizeof') == 1:
+                txt = re.sub(r'sizeof\s*\(\s*(\w+::)*%s\s*\)' % re.escape(name), 'sizeof(%s)' % cname, txt)
+                out.append('_Static_assert' + txt + ';')
+    for cty, nm, val in parse_fields.last_statics:
+        out.append('static const %s %s_%s = %s;' % (cty, cname, nm, val))
+    extract_struct.last_statics = [nm for _, nm, _ in parse_fields.last_statics]
     return '\n'.join(out) + '\n', fields
 
 # --------------------------------------------------------------------------- function definitions
@@ -887,6 +914,8 @@ class Body:
                     out.append(T('id', '(*%s)' % t.t)); self.fire('R3use'); continue
                 if ctx['cls'] and not ctx['static'] and t.t in members and t.t not in shadow:
                     out.append(T('id', 'self->' + t.t)); self.fire('R2'); continue
+                if ctx['cls'] and t.t in ctx.get('statics', {}) and t.t not in shadow:
+                    out.append(T('id', ctx['statics'][t.t])); self.fire('R2static'); continue
             out.append(t)
         self.toks = out
 
@@ -1247,6 +1276,7 @@ def extract_function(fn, unit, repo, filecache, contracts):
         'params': params, 'cls': cls, 'static': static, 'fn': fn, 'locals': {}, 'refs': set(p['name'] for p in params if p['is_ref']),
         'calls': dict(unit.get('calls', {})), 'scoped': unit.get('scoped', {}), 'throwing_calls': unit.get('throwing_calls', ()),
         'auto_checks': [],
+        'statics': {nm: '%s_%s' % (cls, nm) for nm in unit.get('statics', {}).get(cls, [])} if cls else {},
     }
     ctx['calls'].update(fn.get('calls', {}))
     throwers = set()
@@ -1295,6 +1325,9 @@ def extract_function(fn, unit, repo, filecache, contracts):
         order = fn.get('member_order') or list(ctx['members'].keys())
         lines = []
         for m in order:
+            mt = ctx['members'].get(m, '')
+            if m not in inits and (mt.startswith('vec_') or mt == 'str'):
+                lines.append('  self->%s = (%s){ 0, 0 };   /* default-constructed (empty) container */' % (m, mt))
             if m in inits:
                 if fn.get('init_as_call', {}).get(m):
                     lines.append('  %s;' % fn['init_as_call'][m].replace('$', inits[m]))
@@ -1358,6 +1391,7 @@ def extract_unit(unit, repo, contracts_dir):
         txt, fields = extract_struct(open(os.path.join(repo, f)).read(), name, dict(typemap, **opts.get('typemap', {})), opts.get('packed', False), opts.get('cname'))
         parts.append(txt)
         unit['members'][opts.get('cname', name)] = {nm: ct for ct, nm, _, _ in fields}
+        unit.setdefault('statics', {})[opts.get('cname', name)] = list(extract_struct.last_statics)
         if opts.get('cname'): unit['members'][name] = unit['members'][opts['cname']]
     parts.append(contracts['pre'])
     infos = []
